@@ -35,7 +35,7 @@ def call_graph_cycles(rep):
                                 f'deep input or deep results exhaust the Python stack', f'{rel}:{root}'))
 
 
-def rule_calls_are_requests(rep):
+def rule_calls_are_requests(rep, rule='NO-recursion'):
     """rule recursion uses the explicit stack: no emitted rule function calls an implementation
     function directly"""
     R, mods = routes.emitted_modules()
@@ -51,10 +51,14 @@ def rule_calls_are_requests(rep):
                 if isinstance(node, ast.Call):
                     s = routes.strip_ctx(node.func)
                     if s and s[0].startswith('_try_'):
-                        rep.add(Finding('NO-recursion', 'emitted-module', m.label.split('[')[0],
+                        why = ('recursion through rules would use the Python stack' if rule == 'NO-recursion' else
+                               'the body of the called rule runs inside the caller\'s frame, its result is stored '
+                               'only under the caller\'s key and the rule is evaluated again by every other '
+                               'reference at that position')
+                        rep.add(Finding(rule, 'emitted-module', m.label.split('[')[0],
                                         f'{m.label}: {fname} calls {ast.unparse(node.func)} directly instead of '
-                                        f'yielding a request: recursion through rules would use the Python stack',
-                                        'sourcer/expressions (Ref/Call emission)'))
+                                        f'yielding a request: {why}',
+                                        'sourcer/expressions (Rule/Ref/Call emission)'))
             n += 1
     rep.count('emitted rule functions scanned for direct rule calls', n)
     rep.oblige(True, n)
